@@ -75,6 +75,17 @@ class UserError(Exception):
         self.n = n
 
 
+class UserBaseError(BaseException):
+    """what a callable raises / wraps when the case says exc=B: a class outside the `Exception` hierarchy ("raises" in the
+    statement is not restricted to Exception subclasses; seeded change C01-2 narrowed `except BaseException`)"""
+    def __init__(self, n):
+        BaseException.__init__(self, n)
+        self.n = n
+
+
+_CUR = {"exc": UserError}      # the class user callables raise in the case being run (run_impl sets it)
+
+
 # ------------------------------------------------------------------------------------------
 # cases: {"n": <number of Deferreds>, "ops": [<op token>, …]}  (tokens = the driver protocol)
 
@@ -140,7 +151,7 @@ def _val(r, ds):
                 return f"d{i}"
         return "d?"
     if isinstance(r, Failure):
-        if r.check(UserError):
+        if r.check(UserError, UserBaseError):
             return f"e{r.value.n}"
         return "F:" + r.type.__name__
     if r is None:
@@ -160,9 +171,9 @@ def _mk(log, ds, d_index, tag, beh):
         if k == "v":
             return n
         if k == "x":
-            raise UserError(n)
+            raise _CUR["exc"](n)
         if k == "f":
-            return Failure(UserError(n))
+            return Failure(_CUR["exc"](n))
         return ds[n]
     f._tag = tag
     return f
@@ -196,6 +207,17 @@ def _snap(ds):
 
 
 def run_impl(c):
+    _CUR["exc"] = UserBaseError if c.get("exc") == "B" else UserError
+    dbg = defer.getDebugging()
+    defer.setDebugging(bool(c.get("dbg")))      # Deferred debugging must not change any observable (seeded change C03-2)
+    try:
+        return _run_impl(c)
+    finally:
+        defer.setDebugging(dbg)
+        _CUR["exc"] = UserError
+
+
+def _run_impl(c):
     ds = [Deferred() for _ in range(c["n"])]
     log, toks, nadds = [], [], 0
     with warnings.catch_warnings():
@@ -626,6 +648,17 @@ def _scenario(rng):
 
 
 def corpus():
+    return _corpus() + [
+        # callables raising outside the Exception hierarchy (seeded change C01-2), with a Deferred waiting on the raiser
+        {"n": 2, "ops": ["ac0:d1", "ab0:v2", "cb0:1", "ac1:x3", "ae1:v4", "cb1:5"], "exc": "B"},
+        {"n": 1, "ops": ["ac0:x1", "ae0:v2", "ac0:f3", "ab0:v4", "cb0:0"], "exc": "B"},
+        {"n": 1, "ops": ["cb0:0", "ac0:x1", "ae0:v2"], "exc": "B", "dbg": True},
+        # Deferred debugging on (seeded change C03-2): same observables
+        {"n": 2, "ops": ["ac0:d1", "cb0:1", "cb0:2", "ab1:v3", "cb1:5", "eb1:6"], "dbg": True},
+    ]
+
+
+def _corpus():
     return [
         # the defect found by this check in the code as it was: a waiting Deferred that is (still) paused when the
         # Deferred it waits on fires made _runCallbacks return, abandoning that Deferred's later callbacks
@@ -671,12 +704,20 @@ def generate(rng, tier):
     full = _alphabet(2, False)
     for ops in _enumerate(full, 2):
         yield {"n": 2, "ops": ops}
-    for _ in range(600 if quick else 15000):
-        yield _scenario(rng)
-    for _ in range(2500 if quick else 60000):
-        yield _random_program(rng, False)
-    for _ in range(500 if quick else 10000):
-        yield _random_program(rng, True)
+    def variant(c, i):
+        # a quarter of the programs in which a callable raises / returns a Failure use a class outside Exception;
+        # one program in eight runs with Deferred debugging switched on
+        if i % 4 == 1 and any(":x" in t or ":f" in t for t in c["ops"]):
+            c["exc"] = "B"
+        if i % 8 == 3:
+            c["dbg"] = True
+        return c
+    for i in range(600 if quick else 15000):
+        yield variant(_scenario(rng), i)
+    for i in range(2500 if quick else 60000):
+        yield variant(_random_program(rng, False), i)
+    for i in range(500 if quick else 10000):
+        yield variant(_random_program(rng, True), i)
 
 
 # ------------------------------------------------------------------------------------------
@@ -719,6 +760,15 @@ def tag(c, out):
 
 
 def shrink(c):
+    extra = {k: c[k] for k in ("exc", "dbg") if c.get(k)}
+    for d in _shrink(c):
+        d.update(extra)
+        yield d
+    if extra:
+        yield {"n": c["n"], "ops": c["ops"]}
+
+
+def _shrink(c):
     ops = c["ops"]
     for i in range(len(ops)):
         yield {"n": c["n"], "ops": ops[:i] + ops[i + 1:]}
